@@ -1,7 +1,9 @@
-"""C20, SQL level: T-sql regeneration of Generated/DescSql.lean (term_frequencies_for_single_column_sql and the per-column
-sub-select of completeness_data, as Rel terms) and its translation validation: the driver's `descriptive` answer carries the
-regenerated statements evaluated by `Rel.eval` (`tf_sql`, `compl_sql`) next to the functional model's tables (`tf`, `compl`),
-which the same run compares with the engines."""
+"""C20, SQL level: T-sql regeneration of Generated/DescSql.lean (term_frequencies_for_single_column_sql, the per-column
+sub-select of completeness_data, comparison_vector_distribution_sql, the two statements of _hist_sql and the three statements of
+unlinkables_data, as Rel terms) and its translation validation: the driver's `descriptive` answer carries the
+regenerated statements evaluated by `Rel.eval` (`tf_sql`, `compl_sql`, `cvd_sql`, `hist_sql`, `unl_sql`).  The first two are compared with
+the functional model's tables (`tf`, `compl`), which the same run compares with the engines; the last three are compared with the ROWS
+THE ENGINE RETURNED for the real code (same tolerances and exceptions as the model comparison of harness/props/c20.py)."""
 from __future__ import annotations
 
 from fractions import Fraction
@@ -18,6 +20,47 @@ def prepare() -> list[str]:
 
 def _q(v):
     return None if v is None else (Fraction(v[0], v[1]) if isinstance(v, list) else Fraction(v))
+
+
+def differs_engine(ctx, m: dict, case: dict, r: dict, skip=()) -> str | None:
+    """None if the regenerated comparison-vector distribution / histogram / unlinkables statements under Rel.eval return the rows the
+    engine returned for the real code on this case, else a description.  Inputs of Rel.eval: the gamma columns of the scored pairs; the
+    bin of every pair (`bw * floor(w / bw)` at Float: opaque in the Lean statement) with the width `_bins` chose; the rounded self-link
+    scores (DuckDB's rounding; cases within 1e-9 of a rounding boundary are excepted, as in the model comparison)."""
+    from harness import core
+    from harness.props import c20
+
+    if "cvd_sql" not in m:
+        return None
+    t32 = c20.tol32(case)
+    gcols = [f"gamma_{c['col']}{i}" for i, c in enumerate(case["comparisons"])]
+    if "cvd" not in skip:
+        ctx.count("translation_validation", "cvd_sql evaluated")
+        k = len(gcols)
+        a = {tuple(row[4:4 + k]): (row[0], row[1], row[2], _q(row[3])) for row in m["cvd_sql"]}
+        b = {tuple(x[c] for c in gcols): (x["gam_concat"], x["sum_gam"], x["count_rows_in_comparison_vector_group"], x["proportion_of_comparisons"]) for x in r["cvd"]}
+        if len(a) != len(m["cvd_sql"]) or len(b) != len(r["cvd"]) or set(a) != set(b) or any(
+                a[g][:3] != tuple(b[g][:3]) or not core.close(float(a[g][3]), b[g][3], t32, t32) for g in a):
+            return f"comparison-vector distribution: Rel.eval of the regenerated statement {sorted(a.items())[:4]} vs engine {sorted(b.items())[:4]}"
+        ctx.count("translation_validation", "cvd_sql agrees with the engine")
+    if "histogram" not in skip and r.get("hist") is not None and m.get("hist_sql") is not None:
+        ctx.count("translation_validation", "hist_sql evaluated")
+        a = sorted((float(_q(row[0])), float(_q(row[1])), row[2], float(_q(row[3]))) for row in m["hist_sql"])
+        b = sorted((x["splink_score_bin_low"], x["binwidth"], x["count_rows"], x["splink_score_bin_high"]) for x in r["hist"])
+        if len(a) != len(b) or any(not core.close(x[0], y[0], 1e-12) or x[1] != y[1] or x[2] != y[2] or not core.close(x[3], y[3], 1e-6, 1e-7)
+                                   for x, y in zip(a, b)):
+            return f"histogram: Rel.eval of the regenerated statements {a[:5]} vs engine {b[:5]}"
+        ctx.count("translation_validation", "hist_sql agrees with the engine")
+    if "unlinkables" not in skip and not any(c20.knife(p, 1e5) for _, p in r["self"]) and not any(c20.knife(w, 1e2) for w, _ in r["self"]):
+        ctx.count("translation_validation", "unl_sql evaluated")
+        a = sorted((float(_q(row[1])), row[0] / 100, float(_q(row[2])), float(_q(row[3]))) for row in m["unl_sql"])
+        b = sorted((x["match_probability"], x["match_weight"], x["prop"], x["cum_prop"]) for x in r["unl"])
+        tcum = 1e-6 if case["engine"] == "duckdb" else 1e-12
+        if len(a) != len(b) or any(not core.close(x[0], y[0], 1e-9) or not core.close(x[1], y[1], 1e-9, 1e-9) or not core.close(x[2], y[2], t32, t32)
+                                   or not core.close(x[3], y[3], tcum, tcum) for x, y in zip(a, b)):
+            return f"unlinkables: Rel.eval of the regenerated statements {a[:5]} vs engine {b[:5]}"
+        ctx.count("translation_validation", "unl_sql agrees with the engine")
+    return None
 
 
 def differs(ctx, m: dict) -> str | None:
